@@ -44,6 +44,8 @@ def load_units():
 def unit_props(udef):
     props = set()
     for part in udef['parts']:
+        if part['kind'] == 'item':
+            props.update(part.get('auto_props', []))
         if part['kind'] != 'fn':
             continue
         props.update(part.get('props', []))
